@@ -11,6 +11,7 @@ mod scenario;
 mod sup;
 mod sut;
 mod threads;
+mod usertype;
 
 #[global_allocator]
 static GLOBAL: alloc::CountingAlloc = alloc::CountingAlloc;
